@@ -17,10 +17,11 @@ from lib.common import cps, uncps
 from corr import numlib, numerals, numkeys
 from lib import numcjkcorr
 from lib import numbigcorr
+from lib import numordcorr
 
 PROP = 'C04'
 LEVEL = 'proof'
-PROPS_MODULES = ['RTV.Props.C04', 'RTV.Props.C04Cjk', 'RTV.Props.C04Big']
+PROPS_MODULES = ['RTV.Props.C04', 'RTV.Props.C04Cjk', 'RTV.Props.C04Big', 'RTV.Props.C04Big2']
 GEN = ['nummaps', 'chartables', 'numcjk']
 REQUIRED_THEOREMS = ['english_value', 'english_cardinal', 'english_ordinal', 'english_sub1000', 'spell_words_in_maps',
                      'spanish_sub1000', 'portuguese_sub1000', 'german_sub1000', 'dutch_sub1000',
@@ -32,7 +33,12 @@ REQUIRED_THEOREMS = ['english_value', 'english_cardinal', 'english_ordinal', 'en
                      'cjk_double_value', 'cjk_percent_scaled', 'cjk_parse_zh', 'cjk_cheng_zhe', 'cjk_point_single_digit',
                      'cjk_ja_percent_never_parses', 'cjk_digit_by_digit_witness',
                      'spanish_cardinal', 'german_cardinal', 'dutch_cardinal', 'portuguese_cardinal_partial',
-                     'portuguese_e_mil_witness', 'scale_words_in_maps']
+                     'portuguese_e_mil_witness', 'scale_words_in_maps',
+                     'french_cardinal_partial', 'french_un_million_witness', 'french_cents_millions_witness',
+                     'italian_cardinal_partial', 'italian_tre_milioni_witness', 'scale_words_in_maps_fr_it',
+                     'german_ordinal_sub1000', 'dutch_ordinal_sub1000', 'portuguese_ordinal_sub1000', 'french_ordinal_sub1000',
+                     'spanish_ordinal_sub1000_partial', 'spanish_decimoseptimo_witness', 'italian_ordinal_sub1000_partial',
+                     'italian_ordinal_witness']
 RULE = ('unit: __get_int_value on every English numeral of the pipeline set + seeded token lists over each '
         "culture's map keys; pipeline: English n<10^4 (quick: every 7th + boundaries; thorough: all), 10^k, 10^k±1, "
         'seeded n<10^15, x 8 variants x cardinal/ordinal x alone/carrier; es fr pt de it nl zh ja: generator output '
@@ -506,6 +512,7 @@ def correspond(ctx):
     pipeline_other(ctx)
     pipeline_big(ctx)
     numbigcorr.run(ctx)        # es pt de nl at and above 10^6 (RTV.Num.spellHuge; theorems in Props/C04Big)
+    numordcorr.run(ctx)        # fr it at and above 1000 (RTV.Num.spellTop), ordinals below 1000 of six cultures (Props/C04Big2)
     pipeline_ordinals(ctx)
     key_ties(ctx)
     ctx.extra['english_values'] = len(ns)
